@@ -18,6 +18,9 @@ pub struct UnionMut<'a, P, L, R> {
     // Safety: table_l must be distinct from table_r
     table_r: &'a Table<P, R>,
     nodes: Vec<UnionIndex>,
+    // The struct hands out `&'a mut` references to values. Make the auto traits (`Send`) behave as
+    // for `&'a mut` references, rather than as for the shared reference to the table.
+    _marker: std::marker::PhantomData<(&'a mut L, &'a mut R)>,
 }
 
 impl<'a, P, L, R> UnionMut<'a, P, L, R> {
@@ -34,6 +37,7 @@ impl<'a, P, L, R> UnionMut<'a, P, L, R> {
             table_l,
             table_r,
             nodes,
+            _marker: std::marker::PhantomData,
         }
     }
 }
